@@ -19,7 +19,7 @@ BUILD = os.path.join(VERIF, "build")
 GUARD = "JLL63_YOMM2_VERIF"
 
 POLICIES = ["P_dbg", "P_rel", "P_thr", "P_vec", "P_map", "P_ind", "P_indc",
-            "P_proj", "P_projm", "P_def", "P_b", "P_c", "P_m1", "P_m2"]
+            "P_proj", "P_projm", "P_projv", "P_def", "P_b", "P_c", "P_m1", "P_m2"]
 
 FLAVOURS = {
     # the configuration users (and the baseline suite) run: optimised, BOOST_ASSERT off
